@@ -57,6 +57,14 @@ type LoopSpec struct {
 	Invs      []*Clause
 	Decreases *SExpr
 	Ghosts    []*GhostVar
+	Uses      []*LemmaUse
+}
+
+// LemmaUse: a ground instance of a (proved) lemma assumed at a program point.
+type LemmaUse struct {
+	When string // "entry", "step" (loops) or "return" (function)
+	Name string
+	Args []*SExpr
 }
 
 type GhostVar struct {
@@ -75,6 +83,8 @@ type GhostFun struct {
 }
 
 type Lemma struct {
+	Manual    bool // not assumed as a quantified fact: only through `use` instances
+	Pure      bool // proved from the quantifier-free entry facts only
 	Name      string
 	Params    []Binder
 	Induction string
@@ -237,7 +247,7 @@ var (
 	reGhostFun   = regexp.MustCompile(`^ghostfun\s+(opaque\s+)?(\w+)\s*\(([^)]*)\)\s*([\w*][\w.*]*)\s*=\s*(.*)$`)
 	reGhostOut   = regexp.MustCompile(`^ghostout\s+(\w+)\s*\(([^)]*)\)\s*(\w[\w.*]*)\s*$`)
 	reWitness    = regexp.MustCompile(`^witness\s+(?:return\s+(\d+)\s*:\s*)?(\w+)\s*\(([^)]*)\)\s*=\s*(.*)$`)
-	reLemma      = regexp.MustCompile(`^lemma\s+(\w+)\s*\(([^)]*)\)\s*(?:by\s+induction\s+on\s+(\w+)\s*)?:\s*(.*)$`)
+	reLemma      = regexp.MustCompile(`^lemma\s+((?:pure\s+|manual\s+)*)(\w+)\s*\(([^)]*)\)\s*(?:by\s+induction\s+on\s+(\w+)\s*)?:\s*(.*)$`)
 	reGhostVar   = regexp.MustCompile(`^ghost\s+(\w+)\s+([\w.*]+)\s*=\s*(.*?)(?:\s*;\s*at_end\s+(.*))?$`)
 	_            = 0
 	reHarness    = regexp.MustCompile(`^harness\s+(\w+)\s*\(([^)]*)\)\s*$`)
@@ -444,6 +454,19 @@ func (p *Program) parseContractLines(raw []string, file string) error {
 					return fmt.Errorf("%s: %v", file, err)
 				}
 				ls.Decreases = e
+			case strings.HasPrefix(rest, "use "):
+				f := strings.Fields(rest)
+				if len(f) < 3 {
+					return fmt.Errorf("%s: bad use %q", file, rest)
+				}
+				e, err := ParseSpec(strings.TrimSpace(strings.TrimPrefix(strings.TrimPrefix(rest, "use "), f[1])))
+				if err != nil {
+					return fmt.Errorf("%s: %v", file, err)
+				}
+				if e.Op != "call" || e.Args[0].Op != "id" {
+					return fmt.Errorf("%s: use expects lemma(args): %q", file, rest)
+				}
+				ls.Uses = append(ls.Uses, &LemmaUse{When: f[1], Name: e.Args[0].Tok, Args: e.Args[1:]})
 			case strings.HasPrefix(rest, "ghost "):
 				gm := reGhostVar.FindStringSubmatch(rest)
 				if gm == nil {
@@ -502,11 +525,11 @@ func (p *Program) parseContractLines(raw []string, file string) error {
 			if m == nil || cur == nil {
 				return fmt.Errorf("%s: bad lemma %q", file, l)
 			}
-			e, err := ParseSpec(m[4])
+			e, err := ParseSpec(m[5])
 			if err != nil {
 				return fmt.Errorf("%s: %v", file, err)
 			}
-			cur.Lemmas = append(cur.Lemmas, &Lemma{Name: m[1], Params: parseBinders(m[2]), Induction: m[3], Body: e})
+			cur.Lemmas = append(cur.Lemmas, &Lemma{Name: m[2], Params: parseBinders(m[3]), Induction: m[4], Body: e, Pure: strings.Contains(m[1], "pure"), Manual: strings.Contains(m[1], "manual")})
 		case strings.HasPrefix(l, "call ") || strings.HasPrefix(l, "let ") || strings.HasPrefix(l, "assume "):
 			if curH == nil {
 				return fmt.Errorf("%s: step outside harness: %q", file, l)
